@@ -149,6 +149,9 @@ def run(tier, seed):
             rep = "adiabatic"
             V = m.V(x); dV = m.dV(x)
             info = dict(model=name, x=x.tolist(), nstates=m.nstates())
+            other = x + np.array([rng.uniform(0.3, 1.0) for _ in x]); m.V(other); dV_after = m.dV(x); m.dV(other); V_after = m.V(x)
+            if not (np.array_equal(np.asarray(dV_after), np.asarray(dV)) and np.array_equal(np.asarray(V_after), np.asarray(V))):
+                bad.append(dict(failed="the diabatic potential and its gradient at a position depend only on that position (dV(x) after V(y) differs from dV(x) after V(x) by %.3g)" % float(np.max(np.abs(np.asarray(dV_after) - np.asarray(dV)))), case=info))
             if eV is not None:
                 mc.append(tup(eV, edV, flss(V), lst([flss(dV[d]) for d in range(dV.shape[0])]))); mmeta.append(info)
             # generic layer with a reference from a nearby point (so that the sign fix is exercised)
